@@ -284,6 +284,8 @@ CHECKS = {"struct": check_struct, "commute": check_commute}
 @st.composite
 def struct_case(draw):
     ex = draw(S.any_expr(draw(st.integers(1, 4)), deprecated_forms=False))
+    if draw(st.integers(0, 7)) == 0:
+        ex = draw(S.nested_containers(ex))
     names = sorted({s[1] for s in subspecs(ex) if s[0] == "Var"}) or ["x"]
     comps = [s for s in subspecs(ex) if s[0] in ("Subscript", "Lookup")]
     entries = []
